@@ -201,6 +201,30 @@ def dict_bad_value(k: int) -> bool:
     return result((not cfg.fail_on_converter_warnings) and warned and not isinstance(obj.i, bool) and not (isinstance(obj.i, int)))
 
 
+def dict_derived_root(k: int) -> bool:
+    """
+    pre: 0 <= k <= 2
+    post: _
+    """
+    # a derived-element shaped ROOT document ({"qname","type","value"}) with an unknown key next to the three
+    from harness.common import concretize
+    from harness.models import Alpha
+
+    ck = concretize(k, 3)
+    st = _setup()
+    data = {"qname": "alpha", "type": None, "value": {"v": 1}}
+    base = DictDecoder(context=st["ctx"]).decode(dict(data), Alpha)
+    data[["zz_unknown", "text", "Value"][ck]] = 1
+    cfg = _cfg()
+    try:
+        obj = DictDecoder(config=cfg, context=st["ctx"]).decode(data, Alpha)
+    except ParserError:
+        return result(cfg.fail_on_unknown_properties)
+    # lenient: the unknown key is ignored; whether the remaining keys are then read as a derived element or as Alpha's own
+    # (unknown) keys is not specified by the property - only that no information of the original three keys is invented
+    return result(not cfg.fail_on_unknown_properties and (obj == base or obj == Alpha()))
+
+
 def dict_unknown(p: int, n: int) -> bool:
     """
     pre: 0 <= p < NP
@@ -226,7 +250,7 @@ def dict_unknown(p: int, n: int) -> bool:
 
 _KNOWN_POLY = known("C10-dict-unknown-key-in-polymorphic-object")
 # own level of objects that the decoder binds by key-set detection / best match (the listed known finding's signature)
-_POLY_LEVELS = {"holder": [("b",), ("bb", "*")], "wlderived": [("items", "*")], "family": [("base", "*"), ("derived", "*"), ("sibling", "*"), ("members", "*")], "unionmodels": [("item",), ("it", "*")]}
+_POLY_LEVELS = {"holder": [("b",), ("bb", "*")], "holdernest": [("b",), ("bb", "*")], "wlderived": [("items", "*")], "family": [("base", "*"), ("derived", "*"), ("sibling", "*"), ("members", "*")], "unionmodels": [("item",), ("it", "*")]}
 
 
 def _is_poly(path):
@@ -239,7 +263,7 @@ def _is_poly(path):
 def _dict_paths(d, prefix=()):
     if prefix and prefix[-1] in ("attributes", "attrs"):
         return []  # a key added to an attribute map is a new attribute, not an unknown property
-    if _KNOWN_POLY and _is_poly(prefix):
+    if _KNOWN_POLY and _is_poly(prefix) and not PART.get("fup", 1):  # the finding concerns the lenient mode only
         return [p for k, v in d.items() for p in _dict_paths(v, prefix + (k,))] if isinstance(d, dict) else []
     out = [prefix] if isinstance(d, dict) and (not prefix or _is_model_dict(d)) else []
     if isinstance(d, dict):
@@ -330,8 +354,9 @@ def plan(tier):
             jobs.append(Job("inject_attribute", {"doc": doc, "handler": h, "fup": fup, "fua": fua, "fcw": fcw}, 240, 30))
     for c_i, (fup, fua, fcw) in enumerate(combos):
         jobs.append(Job("bad_value", {"doc": "basic", "handler": ("native", "lxml")[c_i % 2], "fup": fup, "fua": fua, "fcw": fcw}, 240, 30))
+        jobs.append(Job("dict_derived_root", {"doc": "basic", "fup": fup, "fua": fua, "fcw": fcw}, 240, 30, note="selector driven"))
         jobs.append(Job("dict_bad_value", {"doc": "basic", "fup": fup, "fua": fua, "fcw": fcw}, 240, 30, note="selector driven"))
-        for doc in (("basic", "parenta", "holder", "wlderived") if quick else ("basic", "parenta", "holder", "lists", "wrapped", "wlderived", "family")):
+        for doc in (("basic", "parenta", "holder", "wlderived", "holdernest") if quick else ("basic", "parenta", "holder", "lists", "wrapped", "wlderived", "family", "holdernest", "unionmodels")):
             jobs.append(Job("dict_unknown", {"doc": doc, "fup": fup, "fua": fua, "fcw": fcw}, 240, 30))
     return jobs
 
